@@ -42,6 +42,11 @@ def ofLens (ls : List Nat) : Shape :=
   let starts := ((0 :: cs.dropLast) ++ [0]).dropLast
   if ls.isEmpty then ⟨[]⟩ else ⟨starts.zip ls⟩
 
+/-- `RaggedShape.from_dict({"offsets": o})`, the legacy form: `cls(np.diff(o))`.  Offsets that decrease somewhere would give a
+negative row length, which no geometry has: a refusal of the model (the code's behaviour there is outside every property). -/
+def ofOffsets (o : List Int) : Option Shape :=
+  if (Np.diff o).all (fun d => decide (0 ≤ d)) then some (ofLens ((Np.diff o).map Int.toNat)) else none
+
 /-- `ravel_multi_index((r, c))` = `starts[r] + c` (`none` when `r` is not a row). -/
 def ravelIdx (s : Shape) (r c : Nat) : Option Nat := (s.starts[r]?).map (· + c)
 
